@@ -46,7 +46,7 @@ EXC_KINDS: List[str] = ['value', 'key', 'type', 'assert', 'runtime', 'custom', '
 def logical_call(ch: Choices, tok: str, allow_fail: bool = True, allow_notification: bool = True,
                  positional_only: bool = False, zero_ok: bool = False, extra_codes: Tuple[int, ...] = (),
                  extra_messages: Tuple[str, ...] = ()) -> LogicalCall:
-    weights = [4, 2, 1, 2, 3 if allow_fail else 0, 2 if allow_fail else 0, 1, 2, 2]
+    weights = [4, 2, 1, 2, 3 if allow_fail else 0, 2 if allow_fail else 0, 1, 2, 2, 1]
     kind = ch.weighted(weights, 'call.kind')
     named = (not positional_only) and ch.flag(1, 3, 'call.named')
     notification = allow_notification and ch.flag(1, 4, 'call.notification')
@@ -80,6 +80,10 @@ def logical_call(ch: Choices, tok: str, allow_fail: bool = True, allow_notificat
         method, argmap = 'typed', [('tok', tok), ('n', ch.choice([1, 0, -3, 2 ** 40], 'arg.n'))]
         if ch.flag(1, 2, 'call.label'):
             argmap.append(('label', ch.choice(['a', 'b'], 'arg.label')))
+    elif kind == 9:
+        method, argmap = 'typed_default', [('tok', tok)]
+        if ch.flag(1, 2, 'call.flag'):
+            argmap.append(('flag', bool(ch.draw(2, 'arg.flag'))))
     else:
         method = ch.choice(['op_ab', 'op_ba'], 'call.op')
         first, second = ('a', 'b') if method == 'op_ab' else ('b', 'a')
